@@ -46,6 +46,7 @@ StmtCons ==
        <<"switch", Switch(Bin("&", A, K(1)), << Case(K(0), Upd(X, 1)), Break, Default(Upd(X, 2)) >>)>>,
        <<"comma-stmt", ExprS(Comma(Assign(X, "=", Bin("+", X, K(1))), Assign(X, "=", Bin("*", X, K(2)))))>>,
        <<"unknown-call-stmt", ExprS(Call("frobnicate", <<A>>))>>,
+       <<"unknown-call0-stmt", ExprS(Call("frobnicate", <<>>))>>,
        <<"prefix-stmt", ExprS(Prefix("++", X))>>,
        <<"index-assign", ExprS(Assign(Index(Var("arr"), K(1)), "=", A))>>,
        <<"member-assign", ExprS(Assign(Member(Var("s"), ".", "f"), "=", A))>>,
@@ -55,6 +56,7 @@ StmtCons ==
 ExprCons ==
     << <<"comma-expr", Comma(Assign(X, "=", Bin("+", X, K(1))), Bin("+", X, K(2)))>>,
        <<"unknown-call", Call("frobnicate", <<A>>)>>,
+       <<"unknown-call0", Call("frobnicate", <<>>)>>,
        <<"prefix-inc", Prefix("++", X)>>,
        <<"prefix-dec", Prefix("--", X)>>,
        <<"index", Index(Var("arr"), A)>>,
